@@ -4,7 +4,7 @@ World: SimKernel stream -> v2/v3 writer -> file; crash points: every cut offset 
 boundaries +-2 and a seeded sample (quick); EIO at sampled read indices; count limits through the real
 print_with_count.  The oracle is self-referential (truncated run versus the same tool's run on the whole file)."""
 from .. import kernel, worlds, tool
-from ..disk import SimBudgetExceeded, SimReader
+from ..disk import SimBudgetExceeded, SimRawReader, SimReader
 from ..runner import digest_of
 from . import common
 
@@ -15,7 +15,7 @@ CHUNK = 4
 RECHECK_MOD = 53
 PROBES = ['cut_in_header', 'cut_in_threadmap', 'cut_in_stackshot_scan', 'cut_in_chunkhdr', 'cut_in_record',
           'cut_at_record_boundary', 'cut_in_block', 'cut_in_pad', 'eio_fired', 'count_limit', 'v2', 'v3',
-          'cut_in_event_tag_scan', 'cli_run', 'many_chunks', 'dump_with_orphan_ends']
+          'cut_in_event_tag_scan', 'cli_run', 'many_chunks', 'dump_with_orphan_ends', 'unbuffered_reader']
 RULE = ('one run = one simulated dump (SimKernel threads -> merged stream -> v2/v3 writer) with every cut offset '
         '0..len (thorough) or all structure boundaries +-2 plus a seeded sample (quick), each parsed through SimReader '
         'under a read budget of 2*len+4096 calls and 3*len+4096 bytes; non-trivial = the dump holds >= 1 record and >= 1 cut landed '
@@ -63,6 +63,7 @@ def generate(rng, index, tier):
     scn['color'] = rng.chance(0.15)
     scn['filter_tid'] = threads[0]['tid'] if threads and rng.chance(0.2) else None
     scn['cli'] = index % 12 == 0
+    scn['reader'] = 'raw' if index % 5 == 2 else 'bytesio'
     return scn
 
 
@@ -76,6 +77,8 @@ def _views(data, table, scn, budget=True, eio=None, deep=True):
     bb = 3 * n + 4096 if budget else None
 
     def reader():
+        if scn.get('reader') == 'raw' and eio is None:
+            return SimRawReader(data, budget_calls=bc, budget_bytes=bb)       # an unbuffered stream
         return SimReader(data, budget_calls=bc, budget_bytes=bb, eio_at=eio)
     p = common.new_parser(filter_tid=scn.get('filter_tid'))
     items, exc = common.drain(lambda: p.kevents(reader()))
@@ -157,6 +160,8 @@ def execute(scn):
     n = len(data)
     ver = scn['writer']['version']
     bump('probe:v%d' % ver)
+    if scn.get('reader') == 'raw':
+        bump('probe:unbuffered_reader')
     try:
         full = _views(data, table, scn)
     except SimBudgetExceeded as e:
@@ -288,7 +293,8 @@ def execute(scn):
                     part, exc = run_cli(data, cmd + ['-c', str(c)])
                     if not whole.startswith(part):
                         viols.append({'tag': 'cli-count-limit-changes-lines', 'sig': cmd[0], 'detail': 'count=%d output is not a prefix of the unlimited output' % c})
-                for k in [c for c in cuts if c % 7 == 0][:12]:
+                rec_cuts = [c for c in cuts if _region(layout, c)[0] == 'record' or _region(layout, min(c + 1, n - 1))[0] == 'record']
+                for k in sorted(set([c for c in cuts if c % 7 == 0][:8] + rec_cuts[::max(1, len(rec_cuts) // 10)][:12])):
                     part, exc = run_cli(data[:k], cmd)
                     bump('fault:truncate')
                     # on the SAME cut file: a count limit prints a prefix of what the unlimited run prints, and the unlimited
